@@ -30,6 +30,49 @@ def sqExisting (s : St) (q : Query) (srv : Server) : Option Nat :=
           else if s.cfg.udpMax > 0 && c.total ≥ s.cfg.udpMax then none
           else some fd
 
+/-- the virtual socket exists: `socket()` succeeded and the peer is recorded -/
+def sqOpenA (s : St) (q : Query) (srv : Server) : St :=
+        let tcp := q.usingTcp
+        let fd := s.nextFd
+        let wl := if tcp then s.pendingWl else []
+        let s := { s with nextFd := fd + 1,
+                          pendingWl := if tcp then [] else s.pendingWl,
+                          socks := s.socks ++ [({ fd := fd, tcp := tcp, wl := wl } : VSock)] }
+        let s := (s.emit s!"sock({fd},{if tcp then "tcp" else "udp"},4)").slog fd "open"
+        let port := if tcp then srv.tcpPort else srv.udpPort
+        s.modSock fd fun v => { v with peer := srv.addr, port := port }
+
+/-- `connect()` -/
+def sqOpenC (s : St) (q : Query) (srv : Server) (fd : Nat) : Option Nat × St :=
+        let tcp := q.usingTcp
+        let port := if tcp then srv.tcpPort else srv.udpPort
+        let (f, s) := s.fault "connect"
+        let s := s.slog fd "connect"
+        let s := match f with
+          | some _ => s.emit s!"conn!({fd},{srv.addr}#{port})"
+          | none => s.emit s!"conn({fd},{srv.addr}#{port})"
+        (f, s)
+
+def sqClose (s : St) (fd : Nat) : St :=
+  ((s.modSock fd fun v => { v with isOpen := false }).emit s!"close({fd})").slog fd "close"
+
+/-- the connection enters the store and its server's list -/
+def sqOpenD (s : St) (q : Query) (srv : Server) (fd : Nat) : St :=
+            let tcp := q.usingTcp
+            let c : Conn := { fd := fd, srv := srv.id, tcp := tcp, selfIp := s.selfVariant }
+            let s := { s with conns := s.conns ++ [c] }
+            let s := s.modServer srv.id fun v =>
+              { v with conns := if tcp then v.conns ++ [fd] else fd :: v.conns,
+                       tcpConn := if tcp then some fd else v.tcpConn }
+            s.notify fd true tcp
+
+/-- `getsockname()`, then the connection object is created -/
+def sqOpenT (s : St) (q : Query) (srv : Server) (fd : Nat) : (Except Status Nat) × St :=
+          let (f, s) := s.fault "getsockname"
+          match f with
+          | some _ => (.error .connrefused, sqClose s fd)
+          | none => (.ok fd, sqOpenD s q srv fd)
+
 /-- ares_open_connection -/
 def sqOpen (s : St) (q : Query) (srv : Server) : (Except Status Nat) × St :=
       let tcp := q.usingTcp
@@ -38,38 +81,13 @@ def sqOpen (s : St) (q : Query) (srv : Server) : (Except Status Nat) × St :=
       | some _ => (.error .connrefused, s.emit s!"sock!({if tcp then "tcp" else "udp"})")
       | none =>
         let fd := s.nextFd
-        let wl := if tcp then s.pendingWl else []
-        let s := { s with nextFd := fd + 1,
-                          pendingWl := if tcp then [] else s.pendingWl,
-                          socks := s.socks ++ [({ fd := fd, tcp := tcp, wl := wl } : VSock)] }
-        let s := (s.emit s!"sock({fd},{if tcp then "tcp" else "udp"},4)").slog fd "open"
-        let port := if tcp then srv.tcpPort else srv.udpPort
-        let s := s.modSock fd fun v => { v with peer := srv.addr, port := port }
-        let (f, s) := s.fault "connect"
-        let s := s.slog fd "connect"
+        let s := sqOpenA s q srv
+        let (f, s) := sqOpenC s q srv fd
         let connFail := match f with
           | some e => !isWouldBlock e
           | none => false
-        let s := match f with
-          | some _ => s.emit s!"conn!({fd},{srv.addr}#{port})"
-          | none => s.emit s!"conn({fd},{srv.addr}#{port})"
-        if connFail then
-          let s := ((s.modSock fd fun v => { v with isOpen := false }).emit s!"close({fd})").slog fd "close"
-          (.error .connrefused, s)
-        else
-          let (f, s) := s.fault "getsockname"
-          match f with
-          | some _ =>
-            let s := ((s.modSock fd fun v => { v with isOpen := false }).emit s!"close({fd})").slog fd "close"
-            (.error .connrefused, s)
-          | none =>
-            let c : Conn := { fd := fd, srv := srv.id, tcp := tcp, selfIp := s.selfVariant }
-            let s := { s with conns := s.conns ++ [c] }
-            let s := s.modServer srv.id fun v =>
-              { v with conns := if tcp then v.conns ++ [fd] else fd :: v.conns,
-                       tcpConn := if tcp then some fd else v.tcpConn }
-            let s := s.notify fd true tcp
-            (.ok fd, s)
+        if connFail then (.error .connrefused, sqClose s fd)
+        else sqOpenT s q srv fd
 
 def sqConn (s : St) (q : Query) (srv : Server) : (Except Status Nat) × St :=
     match sqExisting s q srv with
@@ -171,7 +189,7 @@ theorem bodySendQuery_eq (go) (reqSrv : Option Nat) (key : Nat) (s : St) :
             let p := sqPrep (sqConn s1 q srv).2 q srv key fd
             let w := sqWrite go p.1 fd
             sqFinish go w.1 w.2 p.2 srv key fd probeDowned := by
-  unfold bodySendQuery sqPick sqConn sqExisting sqOpen sqPrep sqWrite sqFinish sqAttachSt
+  unfold bodySendQuery sqPick sqConn sqExisting sqOpen sqOpenT sqOpenA sqOpenC sqClose sqOpenD sqPrep sqWrite sqFinish sqAttachSt
   rfl
 
 end Cares.Chan
